@@ -206,7 +206,6 @@ Proof.
     + intros _ Hd Hc. cbn [delim_flag join_line_fl quote_fields]. pose proof (delim_flag_complete fl dlm fs Hd Hc) as D.
       destruct fl; rewrite D; apply orb_true_r.
   - destruct fs as [|f [|g fs]]; try discriminate.
-    destruct (match fl with LJs => js_mono_raw_scalar row | LPy => false end); [discriminate|].
     injection H as <-. cbn [w_none w_delim]. repeat split; try discriminate.
     + intros ->. reflexivity.
     + intros E. exact E.
